@@ -155,6 +155,38 @@ def _case(repo, it, S, spec):
         sym = {"PLUS": "+", "MINUS": "-"}[sn]
         if d["strand"] != sym or d["name"] != the_name or d["chrom"] != "chr1" or d["score"] != "0" or d["rgb"] != "0,0,0":
             out.append((key + " columns", f"{desc}: columns chrom/name/score/strand/rgb = {d['chrom']},{d['name']},{d['score']},{d['strand']},{d['rgb']}", "io.bed.bed:BED12.__str__"))
+    # the mode flag is a truth value: 1 selects what True selects, 0 and None what False selects (as in every sibling exporter)
+    for flag, like in ((1, True), (0, False), (None, False)):
+        if like not in first_text:
+            continue
+        n += 1
+        k, v = run(it, f, [], {"chromosome_relative_coordinates": flag}, obj)
+        try:
+            text = it.builtin("str", [v], {}, None, 0) if k == "ok" else f"raise:{v}"
+        except Raised as ex:
+            text = f"raise:{ex.exc_name}"
+        if text != first_text[like]:
+            out.append(("mode flag given as another truth value", f"{'transcript' if kind == 'tx' else 'feature'} {list(exons)} {sn} window={window}: "
+                        f"to_bed12(chromosome_relative_coordinates={flag!r}) gives {text!r}; {like!r} gives {first_text[like]!r}", f.qual))
+    # an unnamed record: the name column is the text of the (absent) symbol every time - not something picked from a set
+    if kind == "tx" and window is None:
+        from ..interp import other_hash_seed
+        try:
+            anon = mk_transcript(it, exons, S[sn], parent_or_seq_chunk_parent=parent, sequence_name="chr1", transcript_id="tid-1", protein_id="pid-1")
+            n += 1
+            k1, v1 = run(it, f, [], {}, anon)
+            t1 = it.builtin("str", [v1], {}, None, 0) if k1 == "ok" else f"raise:{v1}"
+            with other_hash_seed():
+                anon2 = mk_transcript(it, exons, S[sn], parent_or_seq_chunk_parent=parent, sequence_name="chr1", transcript_id="tid-1", protein_id="pid-1")
+                k2, v2 = run(it, f, [], {}, anon2)
+                t2 = it.builtin("str", [v2], {}, None, 0) if k2 == "ok" else f"raise:{v2}"
+            d1 = decode(t1)[0] if k1 == "ok" else None
+            if t1 != t2 or d1 is None or d1["name"] != "None":
+                out.append(("name of a transcript without symbol", f"transcript {list(exons)} {sn} with ids but no symbol: name column "
+                            f"{d1['name'] if d1 else t1!r} (and {decode(t2)[0]['name'] if k2 == 'ok' and decode(t2)[0] else t2!r} with sets iterated in the "
+                            f"opposite order); the exported name is the text of the requested attribute, here 'None'", f.qual))
+        except Raised:
+            pass
     return n, out
 
 
